@@ -23,6 +23,7 @@ RULE = (
     "removed by the exclusion, a non-root in R or an unknown alias raise ValueError and nothing runs; a target cut "
     "away by R may either raise ValueError or yield the closure. non-trivial = >= 2 of R/X/T given with Exec neither "
     "empty nor everything, or an error class."
+    " Round 9-10 additions: calls with 10-24 arguments; functions sharing __name__ with different __qualname__; debug logging on with a DEBUG sink."
 )
 ASSUMPTIONS = [
     "alias resolution as documented: ExecNode reference, tag (wins over an equal id), id",
